@@ -14,7 +14,7 @@ from lib import esc, esc_list, unesc
 
 THEOREMS = ['C16.C16_mask_covered', 'C16.C16_mask_table', 'C16.C16_owner_only_if_same_uid', 'C16.C16_file_rule_fields',
             'C16.C16_qualifier', 'C16.C16_signal_fields', 'C16.C16_capability_fields', 'C16.C16_network_fields',
-            'C16.C16_ptrace_unix_fields', 'C16.C16_dbus_fields', 'C16.C16_mount_fields']
+            'C16.C16_ptrace_unix_fields', 'C16.C16_dbus_fields', 'C16.C16_mount_fields', 'C16.C16_merge_keeps_coverage']
 GRANT = {'r': 'r', 'w': 'w', 'a': 'w', 'c': 'w', 'd': 'w', 'm': 'm', 'k': 'k', 'l': 'l', 'x': 'ix'}
 
 
